@@ -47,6 +47,13 @@ i.e. the whole CSV against the expected table, is checked there; "+" = added by 
   + relative paths for every file option, run inside another directory cli-variants (cwd)                         P
   + an older, longer output file exists (must be replaced)             cli-variants (stale)                       P
   + compression contrary to the file name (content decides; the label only looks at the name)   cli-variants (gzflip)   P
+  + CONTAINER of a gzip genome file (-q / -r / --ql / --rl / --square): the same genomes as plain files and as gzip files
+    written by other tools than gzip.open: `gzip FILE` header (FNAME, mtime), every optional header field (FEXTRA FNAME
+    FCOMMENT FHCRC), 2..5 concatenated members cut anywhere (cat a.gz b.gz, pigz -i), empty members first / middle / last,
+    bgzip (BGZF 'BC' extra field, blocks of 64 / 1000 / 4096 / 65280 bytes + the empty end-of-file member; genomes of
+    140..200 kb in 3..4 real blocks under the default 11 / ATGAC), named with and without '.gz' (a plain file named
+    '.gz' too); against each other, --square, and against the signature file / database of the same genomes
+    (the whole file is the genome: a reader that stops at a member boundary shows in every cell of the row)      cli-gzip-containers   P
   + signature file / database stored with a wider or signed value dtype (mixed widths on the two sides), ids stored as
     NumPy 'U' / 'S' arrays or as integers of other widths             cli-variants (vary_store)                  P
   + labels that repeat: files with the same derived label, the very same path twice (-q X -q X, list entry twice was
@@ -76,7 +83,7 @@ i.e. the whole CSV against the expected table, is checked there; "+" = added by 
 Not driven (stated, not hidden): sides of more than 2600 genomes; sides of more than 30 genomes supplied as SEQUENCE files (the
 size class comes in through signature files and the database only); the Coq model on tables of the size class (10^6..10^7
 cells are not sent over the wire: kind size is judged by the class-table oracle alone); FASTA content classes (several records, line ends; C01/C06/C13 -- every file here holds
-one record with N runs and lower case), other accepted names of the database files (C04), k-mer parameter mismatches
+one record with N runs and lower case; the gzip CONTAINER of a file is driven, stream cli-gzip-containers), other accepted names of the database files (C04), k-mer parameter mismatches
 between the sources (C14), non-UTF-8 file names, corner= / fmt= of dump_dmat_csv (not used by the command).
 The audit streams use the model comparison too wherever the case is in the modelled domain (all cli and dump cases:
 the variations do not change what the model sees except the list text / names, which are sent as written); kind ids
@@ -108,6 +115,10 @@ concurrent use; the command forks its own worker processes from the process the 
     files with ids in common; sha1 of every file below the pool before / after each step (a file that
     appears or disappears counts)                                                                  + + + + +  cliseq
   a FASTA file that gets another content between two runs (a cache keyed by path alone)            + . + . .  cliseq (rewrite)
+  a genome file whose gzip stream consists of SEVERAL members (state of the decompressor carried
+    from member to member within ONE read of one file; each case is a single command, two for
+    --square: nothing outlives the call, the same genome is read from a plain file and from one or
+    two containers in the same command)                                                            - - - . .  cli-gzip-containers
   the output file: the table of an earlier run of another shape is in place, made longer (the output
     is documented to be replaced)                                                                  + - + + .  cliseq; x cli-variants (stale)
   signature files the command leaves open (load_signatures without close)                          + + + . .  cliseq
@@ -168,7 +179,9 @@ RULE = ('cli: (genomes, way of supplying queries x way of supplying references, 
         'audit streams (same cli / dump kinds and rules): cli-variants = a grid case spelled, ordered, supplied or stored another way '
         '(long options, option order, GAMBIT_DB_PATH, idle database, list entries absolute / relative to the current directory, relative '
         'paths, stale output file, compression contrary to the name, wider / signed value dtypes and other id arrays in signature files, '
-        'k up to 32, prefix case, many workers); cli-duplicate-labels; cli-empty-sides (trivial by the rule above, still judged); cli-many '
+        'k up to 32, prefix case, many workers); cli-gzip-containers = (3..4 related genomes; every genome FILE written as plain bytes or as a gzip container: '
+        'gzip(1) header, all header fields, several members, empty members, BGZF; with / without .gz in the name; files | list file on either side, '
+        '--square, or signature file / database of the same genomes on the other side) -> the CSV table of the genomes, as in kind cli; cli-duplicate-labels; cli-empty-sides (trivial by the rule above, still judged); cli-many '
         '(12..30 on a side); cli-process (python -m gambit); dump-forms = dump with other memory layouts / id containers / destinations; '
         'ids: list of paths + call form of get_sequence_files / get_file_id -> labels; non-trivial: >=2 paths, one with directory and extension.  '
         'size-class (kind size): (seed of n = 1001..2600 signatures of 0/1..4 k-mers out of a universe of 4..8, k/prefix, ids plain / integer / repeating / '
@@ -189,6 +202,8 @@ TRUSTED = ['csv module: csv.reader(csv.writer(rows)) returns the rows (labels wi
            'signatures of the files in order (C13), FASTA parsing (C01/C06): files enter the model as the genome they hold',
            'np.float32.__format__ = float.__format__ of the exactly converted double (modelled by fmt4, sampled by kind fmt)',
            'harness: pure-Python reference signatures, Fraction rounding oracle, builders of list files / signature files / databases',
+           'cli-gzip-containers: the hand-built gzip members follow RFC 1952 (every container is checked with gzip.decompress to hold exactly the '
+           'bytes of the plain file before it is used, so the file IS that genome by the gzip format, which concatenates the members)',
            'kind size (size-class stream): the oracle is a table over the classes of equal signatures: cell text = round(Fraction(1 - |A n B| / |A u B|) * 10^4) '
            'half-even (0 for two empty sets; unions stay below 32 elements, so no exact tie and no binary32 effect at the fourth decimal; the kernel on one '
            'representative pair per class pair is checked against it and supplies the expected bit pattern of the library calls); every row of a class is compared '
@@ -404,9 +419,78 @@ def py_expected(case):
 # building inputs
 # ------------------------------------------------------------------------------------------------
 
-def _write_fasta(path, seq, gz):
+# gzip containers (RFC 1952) as tools other than Python's gzip.open write them: `gzip FILE` (FNAME, mtime), every optional
+# header field, several concatenated members (cat a.gz b.gz, pigz -i), empty members first / in the middle / last, bgzip
+# (BGZF: members of < 64 KiB with a 'BC' extra subfield and an empty end-of-file member).  All of them hold exactly the
+# bytes of the plain file (checked when written), so the genome, hence the expected table, is the same.
+GZC_MODES = ['single', 'fname', 'hdr', 'multi', 'multi-empty', 'bgzf-small', 'bgzf']
+
+
+def _gz_member(data, level=6, flags=0, extra=b'', fname=b'', comment=b'', mtime=0, xfl=0, osb=255):
+	hdr = b'\x1f\x8b\x08' + bytes([flags]) + struct.pack('<IBB', mtime, xfl, osb)
+	if flags & 4:
+		hdr += struct.pack('<H', len(extra)) + extra
+	if flags & 8:
+		hdr += fname + b'\0'
+	if flags & 16:
+		hdr += comment + b'\0'
+	if flags & 2:
+		hdr += struct.pack('<H', zlib.crc32(hdr) & 0xffff)
+	co = zlib.compressobj(level, zlib.DEFLATED, -15)
+	body = co.compress(data) + co.flush()
+	return hdr + body + struct.pack('<II', zlib.crc32(data), len(data) & 0xffffffff)
+
+
+def _bgzf_member(data):
+	co = zlib.compressobj(6, zlib.DEFLATED, -15)
+	body = co.compress(data) + co.flush()
+	bsize = 18 + len(body) + 8
+	if bsize > 65536:
+		raise RuntimeError('harness error: BGZF member larger than 64 KiB')
+	return _gz_member(data, flags=4, extra=b'BC' + struct.pack('<HH', 2, bsize - 1))
+
+
+def gz_container(data, mode, seed):
+	"""the bytes `data` as a gzip file of the flavour `mode` (deterministic in seed)"""
+	r = random.Random(seed)
+	if mode == 'single':
+		blob = gzip.compress(data, r.choice([1, 6, 9]), mtime=0)
+	elif mode == 'fname':
+		blob = _gz_member(data, flags=8, fname=b'genome.fa', mtime=1700000000 + r.randrange(1 << 20), osb=3)
+	elif mode == 'hdr':
+		blob = _gz_member(data, flags=2 | 4 | 8 | 16, extra=b'XY\x03\x00abc', fname=b'a b.fa', comment=b'written by harness/c16.py',
+		                  mtime=r.randrange(1 << 32), xfl=2, osb=3, level=r.choice([1, 6, 9]))
+	elif mode in ('multi', 'multi-empty'):
+		cuts = sorted({0, len(data)} | {r.randrange(len(data) + 1) for _ in range(r.randint(1, 4))})
+		pieces = [data[a:b] for a, b in zip(cuts, cuts[1:])] or [b'']
+		if mode == 'multi-empty':
+			where = r.choice(['first', 'middle', 'last', 'all'])
+			if where in ('middle', 'all') and len(pieces) > 1:
+				pieces.insert(r.randrange(1, len(pieces)), b'')
+			if where in ('first', 'all'):
+				pieces.insert(0, b'')
+			if where in ('last', 'all') or (where == 'middle' and len(pieces) < 2):
+				pieces.append(b'')
+		blob = b''.join(_gz_member(x, level=r.choice([1, 6, 9])) for x in pieces)
+	elif mode in ('bgzf', 'bgzf-small'):
+		size = 65280 if mode == 'bgzf' else r.choice([64, 1000, 4096])
+		blob = b''.join(_bgzf_member(data[i:i + size]) for i in range(0, len(data), size)) + _bgzf_member(b'')
+	else:
+		raise ValueError(mode)
+	if gzip.decompress(blob) != data:
+		raise RuntimeError(f'harness error: gzip container {mode} does not hold the data')
+	return blob
+
+
+def _write_fasta(path, seq, gz, container=None):
+	"""gz: written through gzip.open (one member); container = [mode, seed]: 'plain' or one of GZC_MODES (overrides gz)"""
 	os.makedirs(os.path.dirname(path), exist_ok=True)
 	text = '>contig1 test\n' + '\n'.join(seq[j:j + 70] for j in range(0, len(seq), 70)) + '\n'
+	if container is not None:
+		data = text.encode('ascii')
+		with open(path, 'wb') as f:
+			f.write(data if container[0] == 'plain' else gz_container(data, container[0], container[1]))
+		return
 	if gz:
 		with gzip.open(path, 'wt') as f:
 			f.write(text)
@@ -459,8 +543,13 @@ def variant(case):
 	long (long option names), dbenv (database through GAMBIT_DB_PATH), order (seed: option groups shuffled, -q / -r
 	keeping their relative order), cwd (run inside the work directory with relative paths), stale (an older, longer
 	output file exists), proc (a real `python -m gambit` process), gzflip (m: compression of some files contrary to
-	their name), pcase ('lower' | 'mixed' spelling of -p)"""
+	their name), pcase ('lower' | 'mixed' spelling of -p), gzc ({file name as in files / list.fs: [mode, seed]}: that
+	sequence file is written as 'plain' bytes or as the gzip container gz_container(mode, seed), whatever its name says)"""
 	return case.get('v') or {}
+
+
+def container_of(case, rel):
+	return (variant(case).get('gzc') or {}).get(rel)
 
 
 def is_gz(case, rel):
@@ -500,13 +589,13 @@ def build_side(case, side, which, wd, args):
 	if side.get('files'):
 		for n, (rel, g) in enumerate(side['files']):
 			path = os.path.join(wd, which + 'f', rel)
-			_write_fasta(path, genome_seq(genomes[g]), is_gz(case, rel))
+			_write_fasta(path, genome_seq(genomes[g]), is_gz(case, rel), container_of(case, rel))
 			args.append(['-' + which, ap(path)])
 	if side.get('list') is not None:
 		base = os.path.join(wd, which + 'l')
 		os.makedirs(base, exist_ok=True)
 		for rel, g in side['list']['fs']:
-			_write_fasta(os.path.join(base, rel), genome_seq(genomes[g]), is_gz(case, rel))
+			_write_fasta(os.path.join(base, rel), genome_seq(genomes[g]), is_gz(case, rel), container_of(case, rel))
 		lf = os.path.join(wd, which + '-list.txt')
 		with open(lf, 'w', newline='', encoding='utf-8') as f:
 			f.write(eff_list(case, side, which, wd)[0])
@@ -2424,6 +2513,96 @@ def ids_stream(ctx, rng):
 		yield 'ids', {'paths': paths, 'form': form}
 
 
+GZC_EXTS = ['.fasta', '.fna', '.fa', '.ffn', '.frn', '.faa', '']
+
+
+def gzc_case(rng, qw, rw, modes, big=False):
+	"""the genome-file channel fed with gzip CONTAINERS: a few related genomes, each written as a plain file and as gzip files
+	of the flavours handed out by `modes` (an endless iterator over GZC_MODES), with and without a '.gz' suffix (the content
+	decides, the label only looks at the name), supplied as files / list file on either side, against each other, --square, or
+	against the same genomes from a signature file / database.  The expected table is that of the genomes, as everywhere."""
+	fam = rng.randrange(10 ** 6)
+	if big:
+		# default parameters (11 / ATGAC need long genomes), files of 2..3 real bgzip blocks of 65280 bytes
+		k, prefix, kopt = 11, 'ATGAC', False
+		lens = [rng.choice([140000, 170000, 200000]) for _ in range(3)]
+	else:
+		k, prefix = rng.choice(KSPECS)
+		kopt = True
+		lens = [rng.choice([1500, 3000, 3000, 6000]) for _ in range(rng.randint(3, 4))]
+	genomes = [{'fam': fam, 'len': lens[0]}]
+	for ln in lens[1:]:
+		genomes.append({'fam': fam, 'len': ln, 'mut': rng.randrange(10 ** 6), 'rate': rng.choice([0.01, 0.03, 0.05, 0.1])})
+	n = len(genomes)
+	gzc = {}
+	used = [0]
+
+	def name(mode, tag):
+		used[0] += 1
+		gzname = rng.random() < (0.25 if mode == 'plain' else 0.7)       # a plain file may be called .gz, a gzip file need not
+		rel = rng.choice(['', '', 'sub/']) + f'{tag}{used[0]}{mode[0]}' + rng.choice(GZC_EXTS) + ('.gz' if gzname else '')
+		gzc[rel] = [mode, rng.randrange(1 << 30)]
+		return rel
+
+	def side(way, which, plain_share):
+		order = list(range(n))
+		rng.shuffle(order)
+		if way in ('files', 'list'):
+			ent = []
+			for g in order:
+				mode = 'plain' if rng.random() < plain_share else (rng.choice(['bgzf', 'multi']) if big else next(modes))
+				ent.append([name(mode, which), g])
+			if way == 'files':
+				return {'files': ent}
+			return {'files': [], 'list': {'text': make_list(rng, ent, 0), 'fs': ent}}
+		ids = set()
+		return {'files': [], 'sigs': {'items': [[rand_id(rng, ids), g] for g in order]}}
+
+	case = {'k': k, 'prefix': prefix, 'genomes': genomes, 'kopt': kopt}
+	case['q'] = side(qw, 'q', 0.15)
+	if rw in ('files', 'list'):
+		# the other side: mostly the plain files of the same genomes (a container read short shows as a non-zero distance to
+		# its own plain file), some as another container
+		case['r'] = side(rw, 'r', 0.6 if qw != 'sigs' else 0.0)
+	elif rw == 'sigs':
+		case['r'] = side('sigs', 'r', 0)
+	elif rw == 'db':
+		case['r'] = {'files': [], 'db': True}
+		ids = set()
+		case['dbdir'] = {'items': [[rand_id(rng, ids), g] for g in range(n)]}
+	else:
+		case['r'] = {'files': [], 'square': True}
+	if qw == 'sigs' or rw in ('sigs', 'db'):
+		case['kopt'] = rng.random() < 0.5
+	case['cores'] = rng.choice([None, 1, 2, 3])
+	case['progress'] = False
+	case['v'] = {'gzc': gzc}
+	if rng.random() < 0.3:
+		case['v']['long'] = True
+	return case
+
+
+def gzc_stream(ctx, rng):
+	order = list(GZC_MODES)
+	rng.shuffle(order)
+
+	def forever():
+		while True:
+			yield from order
+	modes = forever()
+	# every way of handing over genome FILES, on either side; the signature file / database as the other side ties the file
+	# channel to the stored signatures of the same genomes
+	ways = [('files', 'files'), ('list', 'list'), ('files', 'square'), ('list', 'square'), ('files', 'list'), ('list', 'files'),
+	        ('files', 'sigs'), ('sigs', 'list'), ('list', 'db'), ('sigs', 'files'), ('files', 'db')]
+	for rd in range(ctx.pick(1, 8)):
+		for qw, rw in (ways[:9] if rd == 0 else ways):
+			ctx.count('stream:cli-gzip-containers')
+			yield 'cli', gzc_case(rng, qw, rw, modes)
+	for qw, rw in [('files', 'files')] + [rng.choice(ways[:6]) for _ in range(ctx.pick(0, 5))]:
+		ctx.count('stream:cli-gzip-containers')
+		yield 'cli', gzc_case(rng, qw, rw, modes, big=True)
+
+
 def audit_streams(ctx, rng):
 	qways, rways = ['files', 'list', 'sigs'], ['files', 'list', 'sigs', 'db', 'square']
 	grid = [(q, r) for q in qways for r in rways]
@@ -2450,6 +2629,8 @@ def audit_streams(ctx, rng):
 	for qw, rw in procs:
 		ctx.count('stream:cli-process')
 		yield 'cli', variant_case(rng, qw, rw, proc=True)
+	# (f) genome files as gzip containers other than the single member gzip.open writes
+	yield from gzc_stream(ctx, rng)
 	yield from dump_forms_stream(ctx, rng)
 	yield from ids_stream(ctx, rng)
 
